@@ -481,6 +481,28 @@ theorem cm_batch_independent (exp : R → R) (σ : R) (s H W : Nat)
     (confmapsBatch exp Nat.cast σ s H W batch)[b]? = some (confmaps exp Nat.cast σ s H W batch[b]) := by
   simp [confmapsBatch, hb]
 
+/-! ## histories: the generators are pure
+
+The DataPipe classes are modelled by *functions* (no state): iterating the same generator object
+`k` times over the same examples is mapping the model over `k` copies of the input, and every pass
+gives the single-pass answer.  (The code must not keep state between passes — e.g. store
+`sigma * output_stride` back into `self.sigma`; the harness iterates each object 1–3 times, also
+interleaved, and compares every pass with this stateless answer.) -/
+theorem passes_independent {α β : Type} (f : α → β) (x : α) (k : Nat) :
+    (List.replicate k x).map f = List.replicate k (f x) := List.map_replicate
+
+/-- every one of `k` passes of the multi-instance / centroid / single generators over a batch gives
+the one-pass maps, whose cells are those of `multi_batch_value` / `cm_value` -/
+theorem dp_passes_independent (exp : R → R) (σ : R) (s H W n nNodes k : Nat)
+    (batch : List (List (List (Option (R × R))))) (flat : List (List (Option (R × R)))) :
+    (List.replicate k batch).map (multiConfmapsBatch exp Nat.cast σ s H W n nNodes)
+      = List.replicate k (batch.map (multiConfmaps exp Nat.cast σ s H W n nNodes)) ∧
+    (List.replicate k flat).map (confmapsBatch exp Nat.cast σ s H W)
+      = List.replicate k (flat.map (confmaps exp Nat.cast σ s H W)) := by
+  refine ⟨?_, ?_⟩
+  · rw [passes_independent, multi_batch_independent]
+  · rw [passes_independent]; rfl
+
 /-! ### regression record for F-C01 (fixed in 372b25e) -/
 
 /-- the pre-fix reduction agreed with the per-sample one on a batch of one sample … -/
